@@ -9,6 +9,7 @@ from ..engine.mutate import Mutant, Variant, in_function, replace_once
 from ..engine.runner import Rule
 from ..engine.source import AnalysisError
 from .C13 import rule_stat_shortcut
+from . import shared
 from .common import callee_name, calls_in
 
 EXPLANATION = (
@@ -119,15 +120,23 @@ def rule_recycle_keeps(ctx):
     ctx.check("step_hash" not in re.sub(r"SELECT EXISTS\(SELECT 1 FROM step_hash WHERE node = :node\)", "", src).replace("_has_hash", ""), ir.fq, "partial recycle keeps the step_hash row", "initialize_row deletes or rewrites the stored hash", "untouched")
 
 
+def rule_no_phantom_changes(ctx):
+    """R-C04-6: the two places that decide "nothing changed" compare like with like."""
+    shared.check_from_inp_call_sites(ctx, "the digest computed before the run and the one computed for the skip test differ in an ingredient: a step whose inputs did not change is executed again (or the reverse)")
+    shared.check_rescan_rebuilds_registered_matcher(ctx, "the restart rescan matches with another matcher than the registered one: every restart sees phantom additions or deletions and reruns the plan although nothing changed")
+
+
 RULES = [
     Rule("R-C04-1", "only PENDING is dispatched; a stored hash means check, not run", rule_only_pending_dispatched, min_instances=6),
     Rule("R-C04-2", "unchanged hashes are not applied", rule_unchanged_not_applied, min_instances=2),
     Rule("R-C04-3", "who may invalidate", rule_who_may_invalidate, min_instances=12),
     Rule("R-C04-4", "full recycle keeps state and hash", rule_recycle_keeps, min_instances=12),
     Rule("R-C04-5", "stat shortcut compares the full stat signature", rule_stat_shortcut, min_instances=4),
+    Rule("R-C04-6", "no phantom changes: digest sites and glob rescans compare like with like", rule_no_phantom_changes, min_instances=5),
 ]
 
 MUTANTS = [
+    Mutant("rescan-drops-subs", "startup.py", in_function("rescan_nglobs", replace_once("NamedGlob(old_ng.pattern, old_ng.subs)", "NamedGlob(old_ng.pattern)")), ("R-C04-6",)),
     Mutant("dispatch-succeeded", "step.py", replace_once("STEP_DISPATCH_WHERE = f\"\"\"step.state = {StepState.PENDING.value} AND", "STEP_DISPATCH_WHERE = f\"\"\"step.state IN ({StepState.PENDING.value}, {StepState.SUCCEEDED.value}) AND"), ("R-C04-1",)),
     Mutant("always-run", "job.py", in_function("RunJob.runs_command", replace_once("return self.step_hash is None", "return True")), ("R-C04-1",)),
     Mutant("apply-unchanged", "executor.py", in_function("Executor._run_hash_job", replace_once("        if new_hash != hash_job.old_hash or hash_job.cause == HashUpdateCause.CONFIRMED:", "        if True:")), ("R-C04-2",)),
